@@ -1,5 +1,5 @@
 From Coq Require Import List NArith Bool.
-From TT Require Import Model.ConnectPolicy Model.Rules Model.TlsDemux Model.FrontDoor.
+From TT Require Import Model.ConnectPolicy Model.Rules Model.TlsDemux Model.FrontDoor Proofs.TlsDemuxProofs.
 Import ListNotations.
 
 Lemma denied_never_served canon rules c peer h :
@@ -29,8 +29,7 @@ Proof.
   destruct (connection_verdict canon rules peer (h_random h)) eqn:V; cbn [andb]; [|discriminate].
   destruct (select_tcp c (h_alpn h) (Some s)) as [m'|] eqn:Sel; [|discriminate].
   intros H. injection H as <-. split; [reflexivity|]. split; [reflexivity|].
-  unfold select_tcp in Sel. destruct (select c (h_alpn h) s) as [m0|]; [|discriminate].
-  destruct (m_proto m0) eqn:P; try discriminate; injection Sel as <-; rewrite P; discriminate.
+  exact (never_h3_on_tcp_proof c (h_alpn h) (Some s) m' Sel).
 Qed.
 
 Lemma allowed_outcome_is_the_demultiplexers canon rules c peer h :
